@@ -76,10 +76,10 @@ func workScenario(mods []modsim.Module, kind, pkind, mode string, position int, 
 func judge(t interface {
 	Fatalf(string, ...any)
 }, sc *modsim.Scenario) *modsim.Result {
-	res, err := modsim.RunScenario(sc, 150*time.Second)
+	res, err := modsim.RunScenario(sc, 600*time.Second)
 	b, _ := json.Marshal(sc)
 	if errors.Is(err, modsim.ErrChildTimeout) {
-		t.Fatalf("C06-hang: child did not terminate within 150 s\nscenario: %s", b)
+		t.Fatalf("C06-hang: child did not terminate within 600 s\nscenario: %s", b)
 	}
 	if err != nil {
 		t.Fatalf("C06-process-died: the process did not survive: %v\nscenario: %s", err, b)
@@ -120,7 +120,7 @@ func TestExhaustiveWorkPanics(t *testing.T) {
 		}
 	}
 	stats.CaseN(n, n, "exhaustive_work_kind_x_value_x_position")
-	stats.Exhaustive("execution kind (12 work kinds) x panic value (7) x position (alone, first, last among healthy items)")
+	stats.Exhaustive("execution kind (12 work kinds) x panic value (9: nil, error, string, runtime index, nil deref, struct, custom error type, context.Canceled, wrapped context.Canceled) x position (alone, first, last among healthy items)")
 }
 
 // TestExhaustiveLifecyclePanics enumerates phase x panic value for a module inside a small graph.
@@ -152,7 +152,7 @@ func TestExhaustiveLifecyclePanics(t *testing.T) {
 		}
 	}
 	stats.CaseN(n, n, "exhaustive_lifecycle_phase_x_value_x_module")
-	stats.Exhaustive("lifecycle routine (prep,start,stop) x panic value (7) x position in a 3-module chain")
+	stats.Exhaustive("lifecycle routine (prep,start,stop) x panic value (9: nil, error, string, runtime index, nil deref, struct, custom error type, context.Canceled, wrapped context.Canceled) x position in a 3-module chain")
 }
 
 func TestPropWorkPanics(t *testing.T) {
